@@ -27,6 +27,11 @@ MUTATIONS = ["direction", "port_width", "port_arrayness", "cable_width", "move_o
              "add_definition", "add_library", "swap_pin_order", "move_other_wire", "repoint_twin"]
 
 
+def _case_twin(a, b):
+    """Names that differ only in letter case (sorted first among the targets of a move)."""
+    return a is not b and a.name is not None and b.name is not None and a.name != b.name and a.name.lower() == b.name.lower()
+
+
 class Mutator:
     """One effective structural edit of the replica, expressed as ordinary events."""
 
@@ -118,7 +123,7 @@ class Mutator:
     def m_move_other_instance(self):
         for d, wr, p in self.r.sample(self._wire_pins(lambda x: kind_of(x) == "opin"), k=min(8, len(
                 self._wire_pins(lambda x: kind_of(x) == "opin")))):
-            for other in d.children:
+            for other in sorted(d.children, key=lambda o: not _case_twin(o, p.instance)):
                 if other is p.instance or other.reference is not p.instance.reference:
                     continue
                 q = other.pins.get(p.inner_pin)
@@ -130,7 +135,7 @@ class Mutator:
         c = self._wire_pins(lambda x: kind_of(x) == "opin")
         self.r.shuffle(c)
         for d, wr, p in c[:8]:
-            for port in p.instance.reference.ports:
+            for port in sorted(p.instance.reference.ports, key=lambda o: not _case_twin(o, p.inner_pin.port)):
                 if port is p.inner_pin.port:
                     continue
                 for ip in port.pins:
@@ -204,7 +209,7 @@ class Mutator:
         self.r.shuffle(c)
         for d, i in c[:10]:
             sh = tuple(len(p.pins) for p in i.reference.ports)
-            for t in self.defs():
+            for t in sorted(self.defs(), key=lambda o: not _case_twin(o, i.reference)):
                 if t is not i.reference and tuple(len(p.pins) for p in t.ports) == sh and t.name != i.reference.name \
                         and t is not d:
                     return [{"op": "set_reference", "on": self.hd(i), "x": self.hd(t)}]
@@ -404,6 +409,7 @@ class C20(Prop):
             if cfg["twin_defs"]:
                 cfg["n_libs"] = max(2, cfg["n_libs"])
             cfg["undef_dir_rate"] = r.choice([0.0, 0.3]) if cfg["copy"] == "clone" else 0.0
+            cfg["case_twin_rate"] = r.choice([0.0, 0.3]) if cfg["copy"] == "clone" else 0.0
         else:
             cfg["source"] = "example"
             cfg["fmt"] = r.choice(["edf", "edf", "v", "v", "eblif"])
